@@ -354,7 +354,7 @@ theorem formula_lt_one (hm rm soft : F) (h r : Nat) (g Dh Dr : Rat)
     (hm0 : 0 ≤ hm.toRat) (rm0 : 0 ≤ rm.toRat)
     (hmb : hm.toRat * (h : Rat) ≤ ((h : Rat) - Dh) * (1 + u))
     (rmb : rm.toRat * (r : Rat) ≤ ((r : Rat) - Dr) * (1 + u))
-    (hDh : 0 ≤ Dh) (hDr : 0 ≤ Dr) (hg : g ≤ Dh + Dr) (hpos : 0 < h + r) (hn : h + r < 2 ^ 53)
+    (hg : g ≤ Dh + Dr) (hpos : 0 < h + r) (hn : h + r < 2 ^ 53)
     (hgap : ((h + r : Nat) : Rat) ≤ 2 ^ 50 * g) :
     (Generated.fitnessFormula hm rm soft h r 0).toRat < 1 := by
   have hN : (0 : Rat) < ((h + r : Nat) : Rat) := by exact_mod_cast hpos
@@ -390,12 +390,11 @@ theorem formula_lt_one (hm rm soft : F) (h r : Nat) (g Dh Dr : Rat)
     have hform : Generated.fitnessFormula hm rm soft h r 0 =
         rnd ((rnd ((rnd (hm.toRat * (h : Rat))).toRat + (rnd (rm.toRat * (r : Rat))).toRat)).toRat /
           ((h + r : Nat) : Rat)) := by
-      simp only [Generated.fitnessFormula, Nat.add_zero, hc, hc2, if_true, gt_iff_lt, Nat.lt_irrefl,
+      have hc' : decide (0 < h + r) = true := by simpa using hpos
+      simp only [Generated.fitnessFormula, Nat.add_zero, hc', hc2, if_true, gt_iff_lt, Nat.lt_irrefl,
         decide_false, Bool.false_and, Bool.false_eq_true, if_false]
       unfold fdiv fmul fadd
       rw [toRat_ofNat _ hn, toRat_ofNat h (by omega), toRat_ofNat r (by omega)]
-      simp only [fmul]
-      rw [toRat_ofNat h (by omega), toRat_ofNat r (by omega)]
     rw [hform]
     generalize (rnd (hm.toRat * (h : Rat))).toRat = A at *
     generalize (rnd (rm.toRat * (r : Rat))).toRat = Bq at *
@@ -410,5 +409,147 @@ theorem formula_lt_one (hm rm soft : F) (h r : Nat) (g Dh Dr : Rat)
     rw [hsplit] at hgap ⊢
     simp only [u] at *
     nlinarith
+
+/-! ## from the constraint results to the float entries -/
+
+/-- every per-constraint denominator (`total`, or the number of values of a comparison) is at most `2^B` -/
+def DenomLe (B : Nat) (rs : List (Option Fit)) : Prop := ∀ r ∈ rs, ∀ f, r = some f → f.denom ≤ 2 ^ B
+
+theorem unit01_map_toF (B : Nat) (hB : B ≤ 52) (rs : List (Option Fit)) (hw : AllWf rs) (hd : DenomLe B rs) :
+    Unit01 (rs.map toF) := by
+  intro x hx v hv
+  obtain ⟨r, hr, rfl⟩ := List.mem_map.1 hx
+  cases r with
+  | none => simp [toF] at hv
+  | some f =>
+    simp only [toF, Option.map_some, Option.some.injEq] at hv
+    subst hv
+    have h1 := hd _ hr f rfl
+    have h2 : 2 ^ B < 2 ^ 53 := Nat.pow_lt_pow_right (by norm_num) (by omega)
+    exact valueF_bounds f (hw _ hr f rfl) (by omega)
+
+theorem defect_of_not_allSucceed (B : Nat) (hB : B ≤ 52) (rs : List (Option Fit)) (hw : AllWf rs)
+    (hd : DenomLe B rs) (hns : ¬ AllSucceed rs) : ∃ x ∈ rs.map toF, Defect B x := by
+  unfold AllSucceed at hns
+  simp only [not_forall] at hns
+  obtain ⟨r, hr, hno⟩ := hns
+  refine ⟨toF r, List.mem_map.2 ⟨r, hr, rfl⟩, ?_⟩
+  cases r with
+  | none => exact Or.inl rfl
+  | some f =>
+    right
+    refine ⟨f.valueF, rfl, ?_⟩
+    have hs : f.success = false := by
+      cases h : f.success with
+      | false => rfl
+      | true => exact absurd ⟨f, rfl, h⟩ hno
+    exact valueF_le_defect f (hw _ hr f rfl) B hB (hd _ hr f rfl) hs
+
+/-- **acceptance only if everything succeeded, binary64**: the generated formula over the generated class
+    means of the per-constraint values stays strictly below 1.0 as soon as one constraint raised or did
+    not succeed — provided `(h + r) * 2^B ≤ 2^50`, `2^B` bounding every per-constraint denominator -/
+theorem fitnessF_lt_one (B : Nat) (hard rep : List (Option Fit)) (soft : F)
+    (hh : AllWf hard) (hr : AllWf rep) (dh : DenomLe B hard) (dr : DenomLe B rep)
+    (hpos : 0 < hard.length + rep.length) (hbound : (hard.length + rep.length) * 2 ^ B ≤ 2 ^ 50)
+    (hns : ¬ (AllSucceed hard ∧ AllSucceed rep)) :
+    (Generated.fitnessFormula (Generated.classMean (hard.map toF)) (Generated.classMean (rep.map toF)) soft
+      hard.length rep.length 0).toRat < 1 := by
+  have h2 : 0 < 2 ^ B := Nat.pow_pos (by norm_num)
+  have hB : B ≤ 50 := by
+    by_contra hc
+    have : 2 ^ 51 ≤ 2 ^ B := Nat.pow_le_pow_right (by norm_num) (by omega)
+    have : 1 * 2 ^ B ≤ (hard.length + rep.length) * 2 ^ B := Nat.mul_le_mul_right _ hpos
+    omega
+  have hlh : hard.length * 2 ^ B ≤ (hard.length + rep.length) * 2 ^ B :=
+    Nat.mul_le_mul_right _ (by omega)
+  have hlr : rep.length * 2 ^ B ≤ (hard.length + rep.length) * 2 ^ B :=
+    Nat.mul_le_mul_right _ (by omega)
+  have hn1 : (hard.length + rep.length) * 1 ≤ (hard.length + rep.length) * 2 ^ B :=
+    Nat.mul_le_mul_left _ h2
+  have u1 := unit01_map_toF B (by omega) hard hh dh
+  have u2 := unit01_map_toF B (by omega) rep hr dr
+  obtain ⟨a0, a1, a2⟩ := classMean_bounds B (hard.map toF) u1 (by simp only [List.length_map]; omega)
+  obtain ⟨b0, b1, b2⟩ := classMean_bounds B (rep.map toF) u2 (by simp only [List.length_map]; omega)
+  simp only [List.length_map] at a1 a2 b1 b2
+  have hp : (0 : Rat) < (2 : Rat) ^ B := by positivity
+  have hgap : ((hard.length + rep.length : Nat) : Rat) ≤ 2 ^ 50 * (1 / (2 : Rat) ^ B) := by
+    rw [mul_one_div, le_div_iff₀ hp]
+    exact_mod_cast hbound
+  have hg0 : (0 : Rat) ≤ 1 / (2 : Rat) ^ B := by positivity
+  by_cases hsh : AllSucceed hard
+  · have hsr : ¬ AllSucceed rep := fun h => hns ⟨hsh, h⟩
+    have := b2 (defect_of_not_allSucceed B (by omega) rep hr dr hsr)
+    exact formula_lt_one _ _ soft _ _ (1 / (2 : Rat) ^ B) 0 (1 / (2 : Rat) ^ B) a0 b0
+      (by simpa using a1) this (by simp) hpos (by omega) hgap
+  · have := a2 (defect_of_not_allSucceed B (by omega) hard hh dh hsh)
+    exact formula_lt_one _ _ soft _ _ (1 / (2 : Rat) ^ B) (1 / (2 : Rat) ^ B) 0 a0 b0
+      this (by simpa using b1) (by simp) hpos (by omega) hgap
+
+/-! ## the other direction (exact, as in C03): everything succeeded ⇒ fitness is exactly 1.0 -/
+
+theorem valueF_one_of_success (f : Fit) (hf : f.Wf) (hb : f.denom < 2 ^ 53) (hs : f.success = true) :
+    f.valueF = one := by
+  obtain ⟨he, hpos, _, hiff⟩ := valueF_eq f hf hb
+  have hd : (f.denom : Rat) ≠ 0 := by
+    have : (0 : Rat) < (f.denom : Rat) := by exact_mod_cast hpos
+    exact ne_of_gt this
+  rw [he, hiff.2 hs, div_self hd, rnd_one]
+
+theorem map_toF_of_allSucceed (rs : List (Option Fit)) (hw : AllWf rs)
+    (hd : ∀ r ∈ rs, ∀ f, r = some f → f.denom < 2 ^ 53) (hs : AllSucceed rs) :
+    rs.map toF = List.replicate rs.length (some one) := by
+  induction rs with
+  | nil => rfl
+  | cons r rs ih =>
+    obtain ⟨f, rfl, hf⟩ := hs r (by simp)
+    have h1 := valueF_one_of_success f (hw _ (by simp) f rfl) (hd _ (by simp) f rfl) hf
+    have := ih (fun x hx g hg => hw x (by simp [hx]) g hg) (fun x hx g hg => hd x (by simp [hx]) g hg)
+      (fun x hx => hs x (by simp [hx]))
+    simp only [List.map_cons, List.length_cons, List.replicate_succ, this, toF, Option.map_some, h1]
+
+theorem classMean_replicate_one (n : Nat) (h : n < 2 ^ 53) :
+    Generated.classMean (List.replicate n (some one)) = one := by
+  by_cases h0 : n = 0
+  · subst h0; simp [Generated.classMean, ofDecimal_one']
+  · have := foldOk_some_ones n 0 (by omega)
+    simp only [Nat.zero_add, ofNat_zero] at this
+    simp only [Generated.classMean, List.length_replicate, h0, decide_false, Bool.false_eq_true, if_false,
+      ofDecimal_zero', this]
+    exact fdiv_self_ofNat n (by omega) h
+
+theorem fitnessFormula_one_one (h r : Nat) (hb : h + r < 2 ^ 53) (softMean : F) :
+    Generated.fitnessFormula one one softMean h r 0 = one := by
+  have hm := fmul_one_ofNat h (by omega)
+  have hr := fmul_one_ofNat r (by omega)
+  have ha := fadd_ofNat h r hb
+  by_cases ht : h + r = 0
+  · have h0 : h = 0 := by omega
+    have r0 : r = 0 := by omega
+    subst h0 r0
+    simp [Generated.fitnessFormula]
+  · have hd := fdiv_self_ofNat (h + r) (by omega) hb
+    have hpos : 0 < h + r := by omega
+    by_cases hr0 : r = 0
+    · subst hr0
+      simp only [Nat.add_zero] at hd hpos
+      simp [Generated.fitnessFormula, hm, hd, hpos]
+    · have hrpos : 0 < r := by omega
+      simp [Generated.fitnessFormula, hm, hr, ha, hd, hpos, hrpos]
+
+theorem fitnessF_eq_one (hard rep : List (Option Fit)) (soft : F) (hh : AllWf hard) (hr : AllWf rep)
+    (dh : ∀ r ∈ hard, ∀ f, r = some f → f.denom < 2 ^ 53) (dr : ∀ r ∈ rep, ∀ f, r = some f → f.denom < 2 ^ 53)
+    (hb : hard.length + rep.length < 2 ^ 53) (sh : AllSucceed hard) (sr : AllSucceed rep) :
+    Generated.fitnessFormula (Generated.classMean (hard.map toF)) (Generated.classMean (rep.map toF)) soft
+      hard.length rep.length 0 = one := by
+  rw [map_toF_of_allSucceed hard hh dh sh, map_toF_of_allSucceed rep hr dr sr,
+    classMean_replicate_one _ (by omega), classMean_replicate_one _ (by omega)]
+  exact fitnessFormula_one_one _ _ hb _
+
+theorem repFit_denom_le (B : Nat) (gs : List RepGroup) (h : gs.length ≤ 2 ^ B) : (repFit gs).denom ≤ 2 ^ B := by
+  have h2 : 0 < 2 ^ B := Nat.pow_pos (by norm_num)
+  unfold repFit Fit.denom
+  cases gs with
+  | nil => simp; omega
+  | cons g gs => simpa using h
 
 end FV
